@@ -17,6 +17,8 @@ THEOREMS = ["C05_no_silent_corruption_partial", "C05_single_bit", "C05_crc_value
             "C05_crc_value_change_primary", "C05_content_window_primary", "C05_single_bit_primary",
             "C05_full_refuted", "C05_uncorrupted_passes", "C05_no_crc_passes", "C05_all_crcno_passes",
             "C05_crc16_detects_window", "C05_crc32c_detects_window", "C05_valid_block_even_parity"]
+REPEAT = 2            # case lines repeated 66 000 times on one thread (state that builds up over many calls)
+REPEAT_CMDS = ('CORR',)
 RELEASE = True          # debug and release builds of the harness (debug_assert!, overflow checks, cfg(debug_assertions))
 RULE = ("CORR x<bytes>: bundles of the C01 domain with CRC-16 or CRC-32C on all blocks (0-3 extension blocks, small payloads, all EID "
         "forms, boundary-biased integers), encoded by the Python reference; per bundle EVERY single-bit flip of every block byte, every "
